@@ -32,7 +32,7 @@ RULE = ("case = (arm, random parametrised diagram with <=3 qubits / <=2 tensor "
         "variable occurring in >=1 box, 3 random real points); non-trivial = "
         "the gradient was compared with the sympy derivative; distinct by the "
         "repr of the diagram, the variable and the mode.")
-SIZES = {"quick": (16, 18), "thorough": (16, 330)}
+SIZES = {"quick": (16, 18), "thorough": (16, 250)}
 TIMEOUT = {"quick": 900, "thorough": 5400}
 COVER = {
     "discopy.tensor:Diagram.grad": 1.0,
@@ -40,24 +40,25 @@ COVER = {
     "discopy.tensor:Box.grad": 0.9,
     "discopy.tensor:Bubble.grad": 1.0,
     "discopy.tensor:Tensor.grad": 1.0,
-    "discopy.quantum.gates:Rotation.grad": 0.9,
-    "discopy.quantum.gates:CU1.grad": 0.9,
-    "discopy.quantum.gates:CRz.grad": 0.9,
-    "discopy.quantum.gates:CRx.grad": 0.9,
+    "discopy.quantum.gates:Rotation.grad": 0.8,
+    "discopy.quantum.gates:CU1.grad": 0.75,
+    "discopy.quantum.gates:CRz.grad": 0.75,
+    "discopy.quantum.gates:CRx.grad": 0.75,
     "discopy.quantum.gates:Scalar.grad": 1.0,
-    "discopy.quantum.gates:ClassicalGate.grad": 0.9,
+    "discopy.quantum.gates:ClassicalGate.grad": 0.7,
     "discopy.quantum.circuit:Circuit.grad": 1.0,
-    "discopy.quantum.circuit:Circuit.jacobian": 0.9,
+    "discopy.quantum.circuit:Circuit.jacobian": 0.7,
     "discopy.quantum.circuit:Box.grad": 1.0,
     "discopy.quantum.circuit:Sum.eval": 0.8,
     "discopy.quantum.circuit:Sum.grad": 1.0,
-    "discopy.quantum.zx:Spider.grad": 0.9,
+    "discopy.quantum.zx:Spider.grad": 0.8,
 }
 MIN_EVALS = {
     "quick": {"grad-vs-sympy": 150, "grad-vs-finite-difference": 150,
               "absent-symbol-empty-sum": 170, "jacobian-vs-sympy": 25,
               "jacobian-stacks-in-order": 15},
-    "thorough": {"grad-vs-sympy": 4000, "grad-vs-finite-difference": 3600}}
+    "thorough": {"grad-vs-sympy": 2200, "grad-vs-finite-difference": 2200,
+                 "jacobian-vs-sympy": 350}}
 ASSUMPTIONS = [
     "parameters are real: every symbol is read as real when the evaluation is "
     "differentiated (the CQ map of a circuit is not holomorphic)",
@@ -73,7 +74,11 @@ ASSUMPTIONS = [
     "ZX gradients are informational only (no evaluation is defined in discopy)",
     "NotImplementedError from controlled rotations in mixed mode and from "
     "generic symbolic circuit boxes is an allowed refusal; those cases are "
-    "re-checked in pure mode"]
+    "re-checked in pure mode",
+    "tensor diagrams with daggered boxes or bubbles use real symbols (the "
+    "derivative of a conjugate is otherwise undefined)",
+    "per shard at most 10 violations per listed mechanism are recorded "
+    "verbatim, further ones matching the same predicate are counted only"]
 TECHNIQUE = ("runtime monitoring: sympy differentiation of the symbolic "
              "evaluation and central finite differences of numeric "
              "evaluations as two independent reference models")
